@@ -313,8 +313,11 @@ func c08RunHand(t rt.TB, c c08Hand) {
 		fail("terminal-lost", fmt.Sprintf("%s(%d) over %d values ending %q: consumer saw ending %q (%v)", c.Op, c.Cap, c.Len, c.End, end, gotErr))
 		return
 	}
-	if lead := atomic.LoadInt64(&maxLead); lead > int64(c.Cap)+2 {
-		fail("producer-runs-ahead-of-capacity", fmt.Sprintf("%s(%d): the producer got %d values ahead of the consumer (bound: capacity + 2 = %d)", c.Op, c.Cap, lead, c.Cap+2))
+	// lead = Next calls that have RETURNED minus values the consumer is done with:
+	// such a value sits in the queue (<= capacity) or is the one the consumer holds.
+	// The value the producer holds is inside a Next call that has not returned.
+	if lead := atomic.LoadInt64(&maxLead); lead > int64(c.Cap)+1 {
+		fail("producer-runs-ahead-of-capacity", fmt.Sprintf("%s(%d): %d values had been accepted from the producer and not yet handled by the consumer (bound: capacity + the one the consumer holds = %d)", c.Op, c.Cap, lead, c.Cap+1))
 		return
 	}
 	if atomic.LoadInt64(&maxLead) >= int64(c.Cap)+1 {
